@@ -271,7 +271,9 @@ func r08_2(r *Report, p *Program) {
 			ok, why = false, "the latest revision (index 0) is not kept unconditionally"
 		}
 		okK, whyK := loopKeepTable2(f, func(pa engine.Path, n int) (bool, string) {
-			has := val(pa, -1, func(a string) bool { return strings.HasPrefix(a, "(0 < call(controller/composite.parentRevision.countChildren)(") })
+			has := val(pa, -1, func(a string) bool {
+				return strings.HasPrefix(a, "(0 < call(controller/composite.parentRevision.countChildren)(")
+			})
 			if (has == 1) != (n == 1) || has == 0 {
 				return false, "an older revision is kept/dropped regardless of whether it still claims children"
 			}
